@@ -47,6 +47,27 @@ def _lib(j):
     return MeshPatt(Perm(j[0]), [tuple(c) for c in j[1]])
 
 
+def _biv_views(j):
+    """If the shading is exactly a union of full columns and full rows: the same pattern as
+    BivincularPatt (and VincularPatt / CovincularPatt when only columns / rows), else []."""
+    from permuta.patterns import BivincularPatt, CovincularPatt, VincularPatt
+
+    p, sh = _mesh(j)
+    k = len(p)
+    cols = [x for x in range(k + 1) if all((x, y) in sh for y in range(k + 1))]
+    rows = [y for y in range(k + 1) if all((x, y) in sh for x in range(k + 1))]
+    if sh != frozenset((x, y) for x in range(k + 1) for y in range(k + 1) if x in cols or y in rows):
+        return []
+    if k == 0 and sh:
+        cols, rows = [0], []
+    views = [("biv", BivincularPatt(Perm(p), cols, rows))]
+    if not rows:
+        views.append(("vin", VincularPatt(Perm(p), cols)))
+    if not cols:
+        views.append(("cov", CovincularPatt(Perm(p), rows)))
+    return views
+
+
 def _implied(a, ash, o, b, bsh, max_t):
     """Return a counterexample (t, e) where B occurs at e in t but A does not occur at e.o"""
     for t in ref.perms_upto(max_t, len(b)):
@@ -88,8 +109,26 @@ def check_pair(case):
     uwant = ref.mesh_in_mesh_occ(a, ash, b, frozenset())
     if ugot != uwant:
         return BAD("mesh_in_unshaded", {"got": ugot, "want": uwant})
+    # the bivincular family are mesh patterns too: as the smaller and as the larger pattern
+    labels = []
+    for name, A2 in _biv_views(case["A"]):
+        labels.append("A_" + name)
+        g = sorted(A2.occurrences_in(B))
+        if g != sorted(want):
+            return BAD("bivincular_source", {"type": name, "A": repr(A2), "got": g, "want": want})
+        if bool(B.contains(A2)) != has or bool(A2 in B) != has:
+            return BAD("bivincular_source_contains", {"type": name, "A": repr(A2), "want": has})
+    for name, B2 in _biv_views(case["B"]):
+        labels.append("B_" + name)
+        g = sorted(A.occurrences_in(B2))
+        if g != sorted(want):
+            return BAD("bivincular_target", {"type": name, "B": repr(B2), "got": g, "want": want})
+        for name2, A2 in _biv_views(case["A"]):
+            g = sorted(A2.occurrences_in(B2))
+            if g != sorted(want):
+                return BAD("bivincular_both", {"A": repr(A2), "B": repr(B2), "got": g, "want": want})
     nt = len(a) < len(b) and bool(ash) and has
-    return OK(nt, "occurs" if has else "avoids")
+    return OK(nt, "occurs" if has else "avoids", *labels)
 
 
 def check_sub(case):
@@ -202,7 +241,7 @@ CHECKS = {"pair": check_pair, "sub": check_sub, "regions": check_regions, "multi
 @st.composite
 def big_patterns(draw, max_len):
     p = list(draw(gen.perms(0, max_len)))
-    mode = draw(st.sampled_from(["dense", "dense", "lines", "half", "full", "sparse"]))
+    mode = draw(st.sampled_from(["dense", "dense", "lines", "lines", "purelines", "half", "full", "sparse"]))
     return [p, draw(gen.shadings(len(p), mode))]
 
 
@@ -217,7 +256,16 @@ def pair_cases(draw, max_a, max_b):
         k = draw(st.integers(0, min(max_a, len(b))))
         S = sorted(draw(st.lists(st.integers(0, max(len(b) - 1, 0)), min_size=k, max_size=k, unique=True))) if len(b) else []
         q, qsh = ref.sub_mesh(b, bsh, S)
-        keep = [list(c) for c in sorted(qsh) if draw(st.integers(0, 3)) != 0]
+        if draw(st.integers(0, 3)) == 0:
+            # bivincular-shaped weakening: keep only (some) full columns / rows of the induced shading
+            kq = len(q)
+            cols = [x for x in range(kq + 1) if all((x, y) in qsh for y in range(kq + 1)) and draw(st.integers(0, 4)) != 0]
+            rows = [y for y in range(kq + 1) if all((x, y) in qsh for x in range(kq + 1)) and draw(st.integers(0, 4)) != 0]
+            if draw(st.integers(0, 5)) == 0:
+                cols.append(draw(st.integers(0, kq)))  # near miss
+            keep = [[x, y] for x in range(kq + 1) for y in range(kq + 1) if x in cols or y in rows]
+        else:
+            keep = [list(c) for c in sorted(qsh) if draw(st.integers(0, 3)) != 0]
         if draw(st.integers(0, 4)) == 0:
             cells = [(x, y) for x in range(len(q) + 1) for y in range(len(q) + 1)]
             extra = draw(st.sampled_from(cells))
